@@ -13,6 +13,7 @@ pub mod c10;
 pub mod c11;
 pub mod c12;
 pub mod c13;
+pub mod c14;
 pub mod c15;
 pub mod c16;
 pub mod c17;
@@ -37,6 +38,7 @@ pub fn all() -> Vec<Prop> {
         Prop { id: "C11", run: c11::run, replay: c11::replay },
         Prop { id: "C12", run: c12::run, replay: c12::replay },
         Prop { id: "C13", run: c13::run, replay: c13::replay },
+        Prop { id: "C14", run: c14::run, replay: c14::replay },
         Prop { id: "C15", run: c15::run, replay: c15::replay },
         Prop { id: "C16", run: c16::run, replay: c16::replay },
         Prop { id: "C17", run: c17::run, replay: c17::replay },
